@@ -100,6 +100,21 @@ theorem ab_facts : Hiso c0 schedAB = true ∧ (runSched c0 schedAB).quiescent = 
     (runSched c0 schedAB).fs.content 1 = labelledBytes ∧
     (runSched c0 schedAB).origin 1 = 0 := by rw [c0_eq]; exact ab_facts'
 
+/-- Every `renameat` of the trace failed and every `unlinkat` of `name` failed. -/
+def lostTrace (name : Bytes) (tr : List (Call × Res)) : Bool :=
+  tr.all fun x =>
+    match x.1 with
+    | .renameat .. => x.2.isErr
+    | .unlinkat _ n => n != name || x.2.isErr
+    | _ => true
+
+set_option maxRecDepth 1000000 in
+theorem rr_loser' : ((runSched c0' schedRR).parties.map fun ps => (lostTrace (ofString "a") ps.trace, ps.result)) =
+    [(true, some true), (false, some false)] := by decide +kernel
+
+theorem rr_loser : ((runSched c0 schedRR).parties.map fun ps => (lostTrace (ofString "a") ps.trace, ps.result)) =
+    [(true, some true), (false, some false)] := by rw [c0_eq]; exact rr_loser'
+
 /-! ## the client needs no isolation hypothesis: two movers and the client of `m0` -/
 
 /-- The names the processes `env pid` can generate. -/
